@@ -11,7 +11,8 @@
    handlers installed as ev / ca / rg, by ANY interleaving of those steps.  All theorems below are about every such g
    (Proofs/SrcLife_proofs.v: Inv g := GInv g /\ forall t, TInv g t, preserved by every step). *)
 From Coq Require Import ZArith Bool List.
-From Verif Require Import Word Conc Gen_consts Gen_srclife SrcLife SrcLife_phase_proofs SrcLife_proofs SrcLifeR SrcLifeR_proofs.
+From Verif Require Import Word Conc Gen_consts Gen_fields Gen_srclife SrcLife SrcLife_phase_proofs SrcLife_proofs SrcLife_mon_proofs
+  SrcLifeR SrcLifeR_proofs.
 Import ListNotations.
 Local Open Scope Z_scope.
 
@@ -35,10 +36,14 @@ Theorem C16_finalize_is_source : forall dqu z,
   end.
 Proof. exact gen_finalize. Qed.
 Print Assumptions C16_finalize_is_source.
-(* the deferred-unregistration loop (source.c:618, unreachable on this platform) is modelled by m_needs_event_loop; its tie
-   to the generated body refs_unregister_loop is not stated here: the current translator output for that loop treats the
-   loop variable `oqf` as a free parameter (reported to the lead) *)
-
+Theorem C16_deferred_unregistration_loop_is_source : forall ds opts z,
+  match refs_unregister_loop ds opts z with
+  | Commit n _ => m_needs_event_loop (dec z) = Some (dec n)
+  | NoCommit _ _ => m_needs_event_loop (dec z) = None
+  | _ => False
+  end.
+Proof. exact gen_needs_event_loop. Qed.
+Print Assumptions C16_deferred_unregistration_loop_is_source.
 
 (* tie: the program points of the model are the atomic sites of the source, in source order: _dispatch_source_invoke2 with its
    inlined callees (43 sites, cut into the phases OA1 .. OP5), _dispatch_source_wakeup (13), dispatch_source_cancel,
@@ -151,6 +156,28 @@ Theorem C16_event_delivery_never_finalizes : forall k ev ca rg g t g' acts,
   reach k ev ca rg g -> gstep g t GEvMerge = Some (g', acts) -> acts = [].
 Proof. exact event_delivery_never_finalizes. Qed.
 Print Assumptions C16_event_delivery_never_finalizes.
+
+(* link between the global model and the per-thread conformance monitor SrcLife.mon_step (the automaton every recorded
+   thread trace of dq_atomic_flags events and callout marks is run through): every step of gstep taken by thread t, seen as
+   the events SrcLife.emit, is accepted by t's monitor, and the relation mrel between the model's view of t and the monitor
+   state is kept; the monitors of the other threads are not concerned.  Hence the monitor never rejects a behaviour of the
+   model.  thread_ok: a thread is in one call at a time (not inside cancel_and_wait's wait loop while it activates / invokes).
+   The converse is NOT claimed and is false: the monitor watches one thread and one word; it accepts e.g. an event handler
+   start whenever that thread's last read had no CANCELED, whatever the other words and threads did; enabling conditions that
+   depend on shared state are the business of the global replay below. *)
+Theorem C16_monitor_accepts_model : forall k ev ca rg g t a g' acts m,
+  reach k ev ca rg g -> mrel g t m -> thread_ok g t a -> gstep g t a = Some (g', acts) ->
+  exists m', mrun (g_k g) m (emit g t a acts) = Some m' /\ mrel g' t m'.
+Proof. exact step_mon. Qed.
+Print Assumptions C16_monitor_accepts_model.
+Theorem C16_monitor_other_threads : forall g t a g' acts u m,
+  gstep g t a = Some (g', acts) -> u <> t -> mrel g u m -> mrel g' u m.
+Proof. exact step_mon_other. Qed.
+Print Assumptions C16_monitor_other_threads.
+Theorem C16_monitor_run_is_conform : forall k evs m m' i,
+  mrun k m evs = Some m' -> run_trace (mon_step (b2z (k_timer k)) (b2z (k_direct k))) m evs i = (m', -1).
+Proof. exact mrun_run_trace. Qed.
+Print Assumptions C16_monitor_run_is_conform.
 
 (* the global replay (Model/SrcLifeR.v, lib/props/c16r.py): the state the replay of a recorded round reports and judges is
    SrcLife.grun of the acts the scheduler performed, hence a reachable state of the model whatever the scheduler did; and
